@@ -102,12 +102,14 @@ WF(t, body, tail) ==
     [] t.l \in {"cond", "condf"} -> WF(t.a[1], FALSE, FALSE) /\ WF(t.b[1], FALSE, tail)
     [] t.l = "els" -> ChainOk(t) /\ WF(t.a[1], FALSE, tail) /\ WF(t.b[1], FALSE, tail)
     [] k \in {"pre", "suf"} -> WF(t.a[1], FALSE, FALSE)
+    \* the right operand of && / || is evaluated only if the left one does not decide: like a conditional arm it may end in ^~
+    [] t.l \in {"and", "or"} -> WF(t.a[1], FALSE, FALSE) /\ WF(t.b[1], FALSE, tail)
     [] OTHER -> WF(t.a[1], FALSE, FALSE) /\ WF(t.b[1], FALSE, FALSE)
 \* a reapply is only reachable through a conditional arm (an unconditional ^~ never terminates)
 RECURSIVE ReapGuarded(_, _)
 ReapGuarded(t, guarded) ==
   IF t.l = "reap" THEN guarded
-  ELSE IF t.l \in {"cond", "condf"} THEN ReapGuarded(t.a[1], guarded) /\ ReapGuarded(t.b[1], TRUE)
+  ELSE IF t.l \in {"cond", "condf", "and", "or"} THEN ReapGuarded(t.a[1], guarded) /\ ReapGuarded(t.b[1], TRUE)
   ELSE IF t.l = "nest" THEN ReapGuarded(t.a[1], FALSE)
   ELSE (t.a = <<>> \/ ReapGuarded(t.a[1], guarded)) /\ (t.b = <<>> \/ ReapGuarded(t.b[1], guarded))
 WellFormed(t) == WF(t, TRUE, TRUE) /\ ReapGuarded(t, FALSE)
